@@ -446,7 +446,9 @@ class LinearLeastSquares(App):
             if self.G is None:
                 v = self.x.copy()
             else:
-                v = self.G(self.x)
+                # G may return its input itself (Identity) or a view of it
+                # (Reshape): v must not share memory with x.
+                v = self.G(self.x).copy()
 
             u = xp.zeros_like(v)
 
